@@ -326,8 +326,14 @@ func driveRegs(w *writer) error {
 			// ExtractFields on one shared response, several rounds with different field orders
 			evs := []Ev{{"ev": "reset", "start": c.Start, "payload": c.Payload, "def": 9}}
 			data := window(c.Payload)
+			// (a hand-built response: the redundant byte-length field is left at zero for every other case - values
+			// are determined by the payload)
+			bl := uint8(len(data))
+			if c.Start%2 == 1 {
+				bl = 0
+			}
 			resp := &packet.ReadHoldingRegistersResponseTCP{
-				ReadHoldingRegistersResponse: packet.ReadHoldingRegistersResponse{UnitID: 1, RegisterByteLen: uint8(len(data)), Data: data}}
+				ReadHoldingRegistersResponse: packet.ReadHoldingRegistersResponse{UnitID: 1, RegisterByteLen: bl, Data: data}}
 			for _, round := range c.Rounds {
 				fields := modbus.Fields{}
 				calls := []Ev{}
